@@ -175,6 +175,22 @@ func init() {
 			return nil
 		})
 	})
+	reg("afterfunc", "clean:2", 1, "AfterFunc(5 ms) appends on its own thread while the caller, after sleeping 5 ms, appends too: both orders, each exactly once", func() vsched.Instance {
+		return selfInstance(func(out *[]string) {
+			var mu vsched.Mutex
+			vsched.AfterFunc(5*time.Millisecond, func() { mu.Lock(); *out = append(*out, "f"); mu.Unlock() })
+			vsched.Sleep(5 * time.Millisecond)
+			mu.Lock()
+			*out = append(*out, "main")
+			mu.Unlock()
+			vsched.Quiesce()
+		}, func(out []string) []vsched.Violation {
+			if len(out) != 2 {
+				return []vsched.Violation{V("selftest/afterfunc", "%v", out)}
+			}
+			return nil
+		})
+	})
 	// 6. map iteration order is a choice
 	reg("map-order", "clean:2", 1, "ranging over a two-entry map through the hooked iteration: both orders", func() vsched.Instance {
 		return selfInstance(func(out *[]string) {
